@@ -40,6 +40,15 @@ def rhs_matrix(ode, max_tries: int | None = None) -> sympy.Matrix:
         If the maximum number of tries is reached
     """
     intermediates = {x.symbol: x.expr for x in ode.intermediates}
+    # Expand the intermediates themselves first, dependencies before dependents, so that
+    # a single substitution into the right hand side suffices. Substituting repeatedly into
+    # the half-expanded matrix grows with the dependency depth and can exhaust the
+    # recursion limit inside sympy
+    expanded: dict[sympy.Symbol, sympy.Expr] = {}
+    for x in ode.sorted_assignments():
+        if x.symbol in intermediates:
+            expanded[x.symbol] = intermediates[x.symbol].xreplace(expanded)
+    intermediates = expanded
     if max_tries is None:
         max_tries = len(intermediates) + 1
     rhs = sympy.Matrix([state.expr for state in ode.sorted_state_derivatives()])
